@@ -194,9 +194,6 @@ Definition fill_str (fs : list field) (req : mval) (g : seg) : str :=
 Definition bindings (fs : list field) (req : mval) (vars : list str) : list (str * str) :=
   map (fun v => (v, var_val fs req v)) vars.
 
-Definition lits_ok (segs : list seg) : bool :=
-  forallb (fun g => match g with SLit x => str_eqb (seg_unescape x) x | SVar _ => true end) segs.
-
 Lemma fill_seg_var fs req v x : fill_seg fs req (SVar v) = Ok x ->
   exists f, find_field fs v = Some f /\ field_url_ok f = true /\ x = path_escape (var_val fs req v).
 Proof.
@@ -229,7 +226,7 @@ Proof. reflexivity. Qed.
 Lemma seg_vars_cons_var v segs : seg_vars (SVar v :: segs) = v :: seg_vars segs.
 Proof. reflexivity. Qed.
 
-Lemma match_segs_lit x pr e sr : str_eqb (seg_unescape e) x = true ->
+Lemma match_segs_lit x pr e sr : str_eqb (seg_unescape e) (seg_unescape x) = true ->
   (pr = [] -> sr = []) ->
   match_segs (SLit x :: pr) (e :: sr) = match_segs pr sr.
 Proof.
@@ -241,32 +238,29 @@ Proof.
 Qed.
 
 Lemma match_fill_map fs req : forall segs,
-  lits_ok segs = true ->
   (forall v, In v (seg_vars segs) -> var_val fs req v <> [] /\ var_val fs req v <> [slash]) ->
   match_segs segs (map (fill_str fs req) segs) = Some (bindings fs req (seg_vars segs)).
 Proof.
-  induction segs as [|g segs IH]; intros Hl Hv; [reflexivity|].
-  cbn [lits_ok forallb] in Hl. apply andb_true_iff in Hl as [Hg Hl]. fold (lits_ok segs) in Hl.
+  induction segs as [|g segs IH]; intros Hv; [reflexivity|].
   destruct g as [x|v].
   - cbn [map fill_str]. rewrite match_segs_lit.
-    + rewrite seg_vars_cons_lit. apply IH; [exact Hl|]. intros v Hin. now apply Hv.
-    + exact Hg.
+    + rewrite seg_vars_cons_lit. apply IH. intros v Hin. now apply Hv.
+    + apply str_eqb_refl.
     + intros ->. reflexivity.
   - cbn [map fill_str]. rewrite seg_vars_cons_var in *.
     destruct (Hv v (or_introl eq_refl)) as [Hne Hns].
     cbn [match_segs]. rewrite seg_unescape_escape.
     apply str_eqb_neq in Hne. apply str_eqb_neq in Hns. rewrite Hne, Hns. cbn [orb].
-    rewrite IH; [reflexivity|exact Hl|]. intros v' Hin. apply Hv. now right.
+    rewrite IH; [reflexivity|]. intros v' Hin. apply Hv. now right.
 Qed.
 
 (* C3 *)
 Lemma match_fill fs req segs filled :
   all_ok (map (fill_seg fs req) segs) = Ok filled ->
-  lits_ok segs = true ->
   (forall v, In v (seg_vars segs) -> var_val fs req v <> [] /\ var_val fs req v <> [slash]) ->
   match_segs segs filled = Some (bindings fs req (seg_vars segs)).
 Proof.
-  intros H Hl Hv. apply fill_all in H as [-> _]. now apply match_fill_map.
+  intros H Hv. apply fill_all in H as [-> _]. now apply match_fill_map.
 Qed.
 
 (* a template without '%' has only literals that unescape to themselves *)
@@ -597,11 +591,11 @@ Proof.
   apply andb_true_iff in H as [H1 H2]. apply str_eqb_eq in H1. subst. f_equal. now apply IH.
 Qed.
 
-(* the client's template is made of literals that unescape to themselves, and its variables are
-   exactly the variables of the method's own path (none come from the service base path) *)
+(* the variables of the client's template are exactly the variables of the method's own path
+   (none come from the service base path) *)
 Definition template_ok (r : rpc_info) : bool :=
   match tsegs (client_path r) with
-  | Some segs => lits_ok segs && strs_eqb (seg_vars segs) (path_vars r)
+  | Some segs => strs_eqb (seg_vars segs) (path_vars r)
   | None => false
   end.
 
@@ -645,6 +639,15 @@ Proof. unfold field_url_ok. intros H. now apply andb_true_iff in H as [H _]. Qed
 Lemma if_nil {A} (b : bool) (x : A) : (if b then [x] else []) = [] -> b = false.
 Proof. destruct b; [discriminate|reflexivity]. Qed.
 
+Lemma dup_fix_false : forall l,
+  (fix dup (l : list str) : bool :=
+     match l with [] => false | x :: t => existsb (str_eqb x) t || dup t end) l = false -> NoDup l.
+Proof.
+  induction l as [|x l IH]; intros H; [constructor|].
+  apply orb_false_iff in H as [H1 H2]. constructor; [|now apply IH].
+  intros Hin. pose proof (existsb_false_forall _ _ H1 x Hin) as F. now rewrite str_eqb_refl in F.
+Qed.
+
 Section Call.
 Variables (sc : schema) (fl : file) (sv : service) (md : method) (ct : ctype) (req : mval).
 Notation fs := (in_fields sc md).
@@ -663,7 +666,8 @@ Proof.
   unfold defects_C01. cbv zeta. intros H.
   apply app_nil_split in H as [H1 H]. apply app_nil_split in H as [H2 H].
   apply app_nil_split in H as [H3 H]. apply app_nil_split in H as [H4 H].
-  apply app_nil_split in H as [H5 H]. apply app_nil_split in H as [H6 H7].
+  apply app_nil_split in H as [H5 H]. apply app_nil_split in H as [H6 H].
+  apply app_nil_split in H as [H7 _].
   repeat split.
   - now apply map_eq_nil in H1.
   - intros ->. discriminate.
@@ -677,17 +681,37 @@ Proof.
     destruct (str_eqb n (md_name md)) eqn:E; [now apply str_eqb_eq in E|discriminate].
 Qed.
 
+(* the three components added for the gaps between the defect list and the theorems *)
+Lemma defects_nil_inv2 : defects_C01 sc fl sv md ct req = [] ->
+  (verb_has_body (eff_verb r) = false ->
+     forall f, In f (query_fields fs) -> qrequired f = true -> is_zero (scalar_of req f) = false) /\
+  ~ In lbrace (ri_base r) /\
+  (verb_has_body (eff_verb r) = false -> NoDup (map qname (query_fields fs))).
+Proof.
+  unfold defects_C01. cbv zeta. intros H.
+  do 7 (apply app_nil_split in H as [_ H]).
+  apply app_nil_split in H as [H1 H]. apply app_nil_split in H as [H2 H4].
+  repeat split.
+  - intros Hb f Hf Hr. apply if_nil in H1. rewrite Hb in H1. cbn [negb andb] in H1.
+    pose proof (existsb_false_forall _ _ H1 f Hf) as F. cbv beta in F. rewrite Hr in F. exact F.
+  - apply if_nil in H2. now apply in_chars_false.
+  - intros Hb. apply if_nil in H4. rewrite Hb in H4. cbn [negb andb] in H4.
+    now apply dup_fix_false.
+Qed.
+
 Lemma client_build_inv w : client_build fl sv md fs ct req = Ok w ->
   exists segs filled q,
     tsegs (client_path r) = Some segs /\
+    client_template_plain (path_vars r) segs = true /\
     all_ok (map (fill_seg fs req) segs) = Ok filled /\
     (if verb_has_body (eff_verb r) then Ok [] else client_query fs req) = Ok q /\
     w_verb w = eff_verb r /\ w_path w = slash :: join_with [slash] filled /\
     w_query w = sort_kv q /\
     w_body w = (if verb_has_body (eff_verb r) then Some (client_fmt ct, req) else None).
 Proof.
-  unfold client_build. cbv zeta. cbn [rt_path rt_body rt_verb go_client client_route].
+  unfold client_build. cbv zeta. cbn [rt_path rt_body rt_verb rt_pathvars go_client client_route].
   destruct (tsegs (client_path r)) as [segs|] eqn:E1; [|discriminate].
+  destruct (client_template_plain (path_vars r) segs) eqn:E0; cbn [negb]; [|discriminate].
   destruct (all_ok (map (fill_seg fs req) segs)) as [filled|] eqn:E2; [|discriminate].
   destruct (if verb_has_body (eff_verb r) then Ok [] else client_query fs req) as [q|] eqn:E3; [|discriminate].
   intros H. inversion H. exists segs, filled, q.
@@ -707,9 +731,8 @@ Lemma call_core w rs :
     (forall v, In v (path_vars r) -> exists f, find_field fs v = Some f /\ field_url_ok f = true).
 Proof.
   intros Hcb Hsr Hdef Hmd Hnd Htpl Hne.
-  destruct (client_build_inv w Hcb) as [segs [filled [q [Hts [Hfill [_ [Hverb [Hpath _]]]]]]]].
-  unfold template_ok in Htpl. rewrite Hts in Htpl. apply andb_true_iff in Htpl as [Hlits Hvars].
-  apply strs_eqb_eq in Hvars.
+  destruct (client_build_inv w Hcb) as [segs [filled [q [Hts [_ [Hfill [_ [Hverb [Hpath _]]]]]]]]].
+  unfold template_ok in Htpl. rewrite Hts in Htpl. pose proof (strs_eqb_eq _ _ Htpl) as Hvars.
   apply fill_all in Hfill as [-> Hfields]. rewrite Hvars in Hfields.
   destruct (defects_nil_inv Hdef) as [Hroute [_ [Hdirty [Hslash [_ [_ Hdisp]]]]]].
   apply route_agree in Hroute.
@@ -730,7 +753,7 @@ Proof.
     - now apply (Hdirty v f). }
   set (filled := map (fill_str fs req) segs) in *.
   assert (Hmatch : match_segs segs filled = Some (bindings fs req (path_vars r))).
-  { rewrite <- Hvars. apply match_fill_map; [exact Hlits|]. intros v Hv.
+  { rewrite <- Hvars. apply match_fill_map. intros v Hv.
     destruct (Hvv v Hv) as [A [B _]]. now split. }
   assert (Hsplit : split_on slash (join_with [slash] filled) = filled).
   { apply split_on_join.
@@ -803,7 +826,7 @@ Variables (sc : schema) (fl : file) (sv : service) (md : method) (ct : ctype) (r
 Notation fs := (in_fields sc md).
 Notation r := (info_of fl sv md (in_fields sc md)).
 
-Theorem go_call_body : forall resp w o,
+Theorem go_call_body_tpl : forall resp w o,
   go_call sc fl sv md ct req resp = Ok (w, o) ->
   defects_C01 sc fl sv md ct req = [] ->
   verb_has_body (eff_verb r) = true ->
@@ -821,7 +844,7 @@ Proof.
   destruct (server_routes sc fl sv) as [[rs|]|] eqn:Hsr; [|congruence|discriminate].
   destruct (call_core sc fl sv md ct req w0 rs Hcb Hsr Hdef Hmd Hnd Htpl Hne)
     as [p [r0 [Hpath [Hclean [Hfr [Hfs [Hrt Hfields]]]]]]].
-  destruct (client_build_inv sc fl sv md ct req w0 Hcb) as [_ [_ [q [_ [_ [Hq [_ [_ [Hwq Hwb]]]]]]]]].
+  destruct (client_build_inv sc fl sv md ct req w0 Hcb) as [_ [_ [q [_ [_ [_ [Hq [_ [_ [Hwq Hwb]]]]]]]]]].
   rewrite Hbody in Hq, Hwb. inversion Hq; subst q.
   change (sort_kv []) with (@nil (str * str)) in Hwq.
   rewrite (server_handle_routed rs w0 ct resp p r0 _ Hpath Hclean Hfr) in Hcall.
@@ -1018,7 +1041,7 @@ Variables (sc : schema) (fl : file) (sv : service) (md : method) (ct : ctype) (r
 Notation fs := (in_fields sc md).
 Notation r := (info_of fl sv md (in_fields sc md)).
 
-Theorem go_call_nobody : forall resp w o,
+Theorem go_call_nobody_tpl : forall resp w o,
   go_call sc fl sv md ct req resp = Ok (w, o) ->
   defects_C01 sc fl sv md ct req = [] ->
   verb_has_body (eff_verb r) = false ->
@@ -1039,7 +1062,7 @@ Proof.
   destruct (server_routes sc fl sv) as [[rs|]|] eqn:Hsr; [|congruence|discriminate].
   destruct (call_core sc fl sv md ct req w0 rs Hcb Hsr Hdef Hmd Hnd Htpl Hne)
     as [p [r0 [Hpath [Hclean [Hfr [Hfs [Hrt Hfields]]]]]]].
-  destruct (client_build_inv sc fl sv md ct req w0 Hcb) as [_ [_ [q [_ [_ [Hq [_ [_ [Hwq Hwb]]]]]]]]].
+  destruct (client_build_inv sc fl sv md ct req w0 Hcb) as [_ [_ [q [_ [_ [_ [Hq [_ [_ [Hwq Hwb]]]]]]]]]].
   rewrite Hbody in Hq, Hwb. unfold client_query in Hq.
   apply client_query_gen in Hq as [Hqok ->].
   (* facts about the URL-bound fields *)
@@ -1080,95 +1103,7 @@ Qed.
 
 End NoBody.
 
-(* ---- boolean forms of the side conditions (so that concrete instances are checked by computation) -- *)
-
-Fixpoint nodupb (l : list str) : bool :=
-  match l with
-  | [] => true
-  | x :: t => negb (existsb (str_eqb x) t) && nodupb t
-  end.
-
-Lemma nodupb_sound l : nodupb l = true -> NoDup l.
-Proof.
-  induction l as [|x l IH]; intros H; [constructor|].
-  cbn [nodupb] in H. apply andb_true_iff in H as [H1 H2]. apply negb_true_iff in H1.
-  constructor; [|now apply IH].
-  intros Hin. pose proof (existsb_false_forall _ _ H1 x Hin) as F. now rewrite str_eqb_refl in F.
-Qed.
-
-Definition coverb (fs : list field) (vars : list str) : bool :=
-  forallb (fun f => existsb (str_eqb (f_name f)) vars ||
-                    match f_query f with Some _ => true | None => false end) fs.
-
-Lemma coverb_sound fs vars : coverb fs vars = true ->
-  forall f, In f fs -> In (f_name f) vars \/ f_query f <> None.
-Proof.
-  unfold coverb. intros H f Hf. rewrite forallb_forall in H. specialize (H f Hf).
-  apply orb_true_iff in H as [H|H].
-  - left. apply existsb_exists in H as [v [Hv E]]. apply str_eqb_eq in E. now rewrite E.
-  - right. destruct (f_query f); [discriminate|discriminate].
-Qed.
-
-Definition required_sentb (fs : list field) (req : mval) : bool :=
-  forallb (fun f => negb (qrequired f) || negb (is_zero (scalar_of req f))) (query_fields fs).
-
-Lemma required_sentb_sound fs req : required_sentb fs req = true ->
-  forall f, In f (query_fields fs) -> qrequired f = true -> is_zero (scalar_of req f) = false.
-Proof.
-  unfold required_sentb. intros H f Hf Hr. rewrite forallb_forall in H. specialize (H f Hf).
-  rewrite Hr in H. cbn [negb orb] in H. now apply negb_true_iff in H.
-Qed.
-
-(* all side conditions of the two theorems as one boolean each *)
-Definition wf_body (sc : schema) (fl : file) (sv : service) (md : method) (req : mval) : bool :=
-  let fs := in_fields sc md in
-  let r := info_of fl sv md fs in
-  verb_has_body (eff_verb r) && nodupb (map md_name (sv_methods sv)) && template_ok r &&
-  path_vals_nonempty fs req (path_vars r) && req_typedb fs req.
-
-Definition wf_nobody (sc : schema) (fl : file) (sv : service) (md : method) (req : mval) : bool :=
-  let fs := in_fields sc md in
-  let r := info_of fl sv md fs in
-  negb (verb_has_body (eff_verb r)) && nodupb (map md_name (sv_methods sv)) && template_ok r &&
-  path_vals_nonempty fs req (path_vars r) && req_typedb fs req &&
-  nodupb (map f_name fs) && nodupb (map qname (query_fields fs)) &&
-  coverb fs (path_vars r) && required_sentb fs req.
-
-Theorem go_call_body_b : forall sc fl sv md ct req resp w o,
-  go_call sc fl sv md ct req resp = Ok (w, o) ->
-  defects_C01 sc fl sv md ct req = [] ->
-  In md (sv_methods sv) ->
-  wf_body sc fl sv md req = true ->
-  o = Delivered req resp.
-Proof.
-  intros sc fl sv md ct req resp w o Hcall Hdef Hmd Hwf. unfold wf_body in Hwf. cbv zeta in Hwf.
-  repeat (apply andb_true_iff in Hwf as [Hwf ?]).
-  apply (go_call_body sc fl sv md ct req resp w o); try assumption.
-  - now apply nodupb_sound.
-  - now apply req_typedb_sound.
-Qed.
-
-Theorem go_call_nobody_b : forall sc fl sv md ct req resp w o,
-  go_call sc fl sv md ct req resp = Ok (w, o) ->
-  defects_C01 sc fl sv md ct req = [] ->
-  In md (sv_methods sv) ->
-  wf_nobody sc fl sv md req = true ->
-  exists saw, o = Delivered saw resp /\
-              forall f, In f (in_fields sc md) -> scalar_of saw f = scalar_of req f.
-Proof.
-  intros sc fl sv md ct req resp w o Hcall Hdef Hmd Hwf. unfold wf_nobody in Hwf. cbv zeta in Hwf.
-  repeat (apply andb_true_iff in Hwf as [Hwf ?]).
-  apply (go_call_nobody sc fl sv md ct req resp w o); try assumption.
-  - now apply negb_true_iff.
-  - now apply nodupb_sound.
-  - now apply req_typedb_sound.
-  - now apply nodupb_sound.
-  - now apply nodupb_sound.
-  - now apply coverb_sound.
-  - now apply required_sentb_sound.
-Qed.
-
-(* ---- a syntactic sufficient condition for [template_ok] -------------------------------------------- *)
+(* ---- ExtractPathParams and the segment-wise reading of a template agree ------------------------------ *)
 
 Lemma split_on_aux_chars c x : forall acc y, In y (split_on_aux c acc x) ->
   forall d, In d y -> In d acc \/ In d x.
@@ -1183,17 +1118,6 @@ Qed.
 
 Lemma split_on_chars c x y : In y (split_on c x) -> forall d, In d y -> In d x.
 Proof. intros Hy d Hd. destruct (split_on_aux_chars c x [] y Hy d Hd) as [[]|H]. exact H. Qed.
-
-Lemma lits_ok_no_pct p segs : tsegs p = Some segs -> ~ In "%"%char p -> lits_ok segs = true.
-Proof.
-  unfold tsegs. destruct p as [|c rest]; [discriminate|].
-  destruct (Ascii.eqb c slash); [|discriminate]. intros H Hp.
-  apply all_some_map in H as [_ H]. unfold lits_ok. apply forallb_forall. intros g Hg.
-  destruct g as [x|v]; [|reflexivity].
-  destruct (H _ Hg) as [y [Hy Hs]]. apply seg_of_lit in Hs. subst x.
-  apply str_eqb_eq. apply seg_unescape_no_pct. intros Hin. apply Hp. right.
-  now apply (split_on_chars slash rest y).
-Qed.
 
 Lemma split_on_aux_nonempty c x : forall acc, split_on_aux c acc x <> [].
 Proof.
@@ -1345,70 +1269,146 @@ Proof.
       * now apply Hb.
 Qed.
 
-Definition simple_template (r : rpc_info) : bool :=
-  negb (in_chars "%"%char (client_path r)) && negb (in_chars lbrace (ri_base r)).
-
 Lemma strs_eqb_refl a : strs_eqb a a = true.
 Proof. induction a as [|x a IH]; [reflexivity|]. cbn. now rewrite str_eqb_refl. Qed.
 
-Lemma template_ok_simple r segs : tsegs (client_path r) = Some segs -> cfg_path r <> [] ->
-  simple_template r = true -> template_ok r = true.
-Proof.
-  intros Ht Hc Hs. unfold simple_template in Hs. apply andb_true_iff in Hs as [H1 H2].
-  apply negb_true_iff in H1. apply negb_true_iff in H2. rewrite in_chars_false in H1, H2.
-  unfold template_ok. rewrite Ht. rewrite (lits_ok_no_pct _ _ Ht H1). cbn [andb].
-  rewrite <- (extract_client_path r Hc H2), (extract_tsegs _ _ Ht). apply strs_eqb_refl.
-Qed.
+(* ---- the side conditions that follow from an empty defect list -------------------------------------- *)
 
-(* from a modelled call without defects, [simple_template] gives [template_ok] *)
-Lemma template_ok_of_call sc fl sv md ct req resp w o :
+Lemma template_ok_of_defects sc fl sv md ct req resp w o :
   go_call sc fl sv md ct req resp = Ok (w, o) ->
   defects_C01 sc fl sv md ct req = [] ->
-  simple_template (info_of fl sv md (in_fields sc md)) = true ->
   template_ok (info_of fl sv md (in_fields sc md)) = true.
 Proof.
-  intros Hcall Hdef Hs. unfold go_call in Hcall. cbv zeta in Hcall.
+  intros Hcall Hdef. unfold go_call in Hcall. cbv zeta in Hcall.
   destruct (client_build fl sv md (in_fields sc md) ct req) as [w0|] eqn:Hcb; [|discriminate].
   destruct (client_build_inv sc fl sv md ct req w0 Hcb) as [segs [_ [_ [Ht _]]]].
-  apply (template_ok_simple _ segs Ht); [|exact Hs].
+  destruct (defects_nil_inv2 sc fl sv md ct req Hdef) as [_ [Hbase _]].
   destruct (defects_nil_inv sc fl sv md ct req Hdef) as [Hr _].
-  unfold defects_C03 in Hr. apply filter_nil_app in Hr as [Hr _].
-  intros E. rewrite E in Hr. discriminate.
+  assert (Hcfg : cfg_path (info_of fl sv md (in_fields sc md)) <> []).
+  { unfold defects_C03 in Hr. apply filter_nil_app in Hr as [Hr _].
+    intros E. rewrite E in Hr. discriminate. }
+  unfold template_ok. rewrite Ht.
+  rewrite <- (extract_client_path _ Hcfg Hbase), (extract_tsegs _ _ Ht). apply strs_eqb_refl.
 Qed.
 
-Theorem go_call_body_simple : forall sc fl sv md ct req resp w o,
+(* ---- C4 / C5 with the side conditions discharged by the defect list ------------------------------------ *)
+
+Theorem go_call_body : forall sc fl sv md ct req resp w o,
   go_call sc fl sv md ct req resp = Ok (w, o) ->
   defects_C01 sc fl sv md ct req = [] ->
   verb_has_body (eff_verb (info_of fl sv md (in_fields sc md))) = true ->
   In md (sv_methods sv) -> NoDup (map md_name (sv_methods sv)) ->
-  simple_template (info_of fl sv md (in_fields sc md)) = true ->
   path_vals_nonempty (in_fields sc md) req (path_vars (info_of fl sv md (in_fields sc md))) = true ->
   req_typed (in_fields sc md) req ->
   o = Delivered req resp.
 Proof.
-  intros sc fl sv md ct req resp w o Hcall Hdef Hb Hmd Hnd Hs Hne Hty.
-  apply (go_call_body sc fl sv md ct req resp w o); try assumption.
-  now apply (template_ok_of_call sc fl sv md ct req resp w o).
+  intros sc fl sv md ct req resp w o Hcall Hdef Hb Hmd Hnd Hne Hty.
+  apply (go_call_body_tpl sc fl sv md ct req resp w o); try assumption.
+  now apply (template_ok_of_defects sc fl sv md ct req resp w o).
 Qed.
 
-Theorem go_call_nobody_simple : forall sc fl sv md ct req resp w o,
+Theorem go_call_nobody : forall sc fl sv md ct req resp w o,
   go_call sc fl sv md ct req resp = Ok (w, o) ->
   defects_C01 sc fl sv md ct req = [] ->
   verb_has_body (eff_verb (info_of fl sv md (in_fields sc md))) = false ->
   In md (sv_methods sv) -> NoDup (map md_name (sv_methods sv)) ->
-  simple_template (info_of fl sv md (in_fields sc md)) = true ->
   path_vals_nonempty (in_fields sc md) req (path_vars (info_of fl sv md (in_fields sc md))) = true ->
   req_typed (in_fields sc md) req ->
   NoDup (map f_name (in_fields sc md)) ->
-  NoDup (map qname (query_fields (in_fields sc md))) ->
   (forall f, In f (in_fields sc md) ->
      In (f_name f) (path_vars (info_of fl sv md (in_fields sc md))) \/ f_query f <> None) ->
-  (forall f, In f (query_fields (in_fields sc md)) -> qrequired f = true ->
-     is_zero (scalar_of req f) = false) ->
   exists saw, o = Delivered saw resp /\
               forall f, In f (in_fields sc md) -> scalar_of saw f = scalar_of req f.
 Proof.
-  intros sc fl sv md ct req resp w o Hcall Hdef Hb Hmd Hnd Hs Hne Hty H1 H2 H3 H4.
+  intros sc fl sv md ct req resp w o Hcall Hdef Hb Hmd Hnd Hne Hty Hfnd Hcover.
+  destruct (defects_nil_inv2 sc fl sv md ct req Hdef) as [Hreqd [_ Hqnd]].
+  apply (go_call_nobody_tpl sc fl sv md ct req resp w o); try assumption.
+  - now apply (template_ok_of_defects sc fl sv md ct req resp w o).
+  - now apply Hqnd.
+  - now apply Hreqd.
+Qed.
+
+(* ---- boolean forms of the side conditions (so that concrete instances are checked by computation) -- *)
+
+Fixpoint nodupb (l : list str) : bool :=
+  match l with
+  | [] => true
+  | x :: t => negb (existsb (str_eqb x) t) && nodupb t
+  end.
+
+Lemma nodupb_sound l : nodupb l = true -> NoDup l.
+Proof.
+  induction l as [|x l IH]; intros H; [constructor|].
+  cbn [nodupb] in H. apply andb_true_iff in H as [H1 H2]. apply negb_true_iff in H1.
+  constructor; [|now apply IH].
+  intros Hin. pose proof (existsb_false_forall _ _ H1 x Hin) as F. now rewrite str_eqb_refl in F.
+Qed.
+
+Definition coverb (fs : list field) (vars : list str) : bool :=
+  forallb (fun f => existsb (str_eqb (f_name f)) vars ||
+                    match f_query f with Some _ => true | None => false end) fs.
+
+Lemma coverb_sound fs vars : coverb fs vars = true ->
+  forall f, In f fs -> In (f_name f) vars \/ f_query f <> None.
+Proof.
+  unfold coverb. intros H f Hf. rewrite forallb_forall in H. specialize (H f Hf).
+  apply orb_true_iff in H as [H|H].
+  - left. apply existsb_exists in H as [v [Hv E]]. apply str_eqb_eq in E. now rewrite E.
+  - right. destruct (f_query f); [discriminate|discriminate].
+Qed.
+
+Definition required_sentb (fs : list field) (req : mval) : bool :=
+  forallb (fun f => negb (qrequired f) || negb (is_zero (scalar_of req f))) (query_fields fs).
+
+Lemma required_sentb_sound fs req : required_sentb fs req = true ->
+  forall f, In f (query_fields fs) -> qrequired f = true -> is_zero (scalar_of req f) = false.
+Proof.
+  unfold required_sentb. intros H f Hf Hr. rewrite forallb_forall in H. specialize (H f Hf).
+  rewrite Hr in H. cbn [negb orb] in H. now apply negb_true_iff in H.
+Qed.
+
+(* all remaining side conditions of the two theorems as one boolean each *)
+Definition wf_body (sc : schema) (fl : file) (sv : service) (md : method) (req : mval) : bool :=
+  let fs := in_fields sc md in
+  let r := info_of fl sv md fs in
+  verb_has_body (eff_verb r) && nodupb (map md_name (sv_methods sv)) &&
+  path_vals_nonempty fs req (path_vars r) && req_typedb fs req.
+
+Definition wf_nobody (sc : schema) (fl : file) (sv : service) (md : method) (req : mval) : bool :=
+  let fs := in_fields sc md in
+  let r := info_of fl sv md fs in
+  negb (verb_has_body (eff_verb r)) && nodupb (map md_name (sv_methods sv)) &&
+  path_vals_nonempty fs req (path_vars r) && req_typedb fs req &&
+  nodupb (map f_name fs) && coverb fs (path_vars r).
+
+Theorem go_call_body_b : forall sc fl sv md ct req resp w o,
+  go_call sc fl sv md ct req resp = Ok (w, o) ->
+  defects_C01 sc fl sv md ct req = [] ->
+  In md (sv_methods sv) ->
+  wf_body sc fl sv md req = true ->
+  o = Delivered req resp.
+Proof.
+  intros sc fl sv md ct req resp w o Hcall Hdef Hmd Hwf. unfold wf_body in Hwf. cbv zeta in Hwf.
+  repeat (apply andb_true_iff in Hwf as [Hwf ?]).
+  apply (go_call_body sc fl sv md ct req resp w o); try assumption.
+  - now apply nodupb_sound.
+  - now apply req_typedb_sound.
+Qed.
+
+Theorem go_call_nobody_b : forall sc fl sv md ct req resp w o,
+  go_call sc fl sv md ct req resp = Ok (w, o) ->
+  defects_C01 sc fl sv md ct req = [] ->
+  In md (sv_methods sv) ->
+  wf_nobody sc fl sv md req = true ->
+  exists saw, o = Delivered saw resp /\
+              forall f, In f (in_fields sc md) -> scalar_of saw f = scalar_of req f.
+Proof.
+  intros sc fl sv md ct req resp w o Hcall Hdef Hmd Hwf. unfold wf_nobody in Hwf. cbv zeta in Hwf.
+  repeat (apply andb_true_iff in Hwf as [Hwf ?]).
   apply (go_call_nobody sc fl sv md ct req resp w o); try assumption.
-  now apply (template_ok_of_call sc fl sv md ct req resp w o).
+  - now apply negb_true_iff.
+  - now apply nodupb_sound.
+  - now apply req_typedb_sound.
+  - now apply nodupb_sound.
+  - now apply coverb_sound.
 Qed.
